@@ -87,7 +87,7 @@ def unit_neighbench():
     h = """
 void vf_harness()
 {
-  NeighBench a; a._ndimA = nondet_int(); a._width = nondet_double(); __CPROVER_assume(!FFFF(a._width));
+  NeighBench a; a._ndimA = nondet_int(); __CPROVER_assume(1 <= a._ndimA && a._ndimA <= 1048576); a._width = nondet_double(); __CPROVER_assume(!FFFF(a._width));
   BiTargetCheckBench A; A._idimBench = -1; A._width = a._width; a._biPtBench = &A;      /* constructor: create(-1, _width) */
   g_tape.n = 0; g_tape.rd = 0; g_type_mismatch = 0;
   std::ostream os; std::istream is;
@@ -137,7 +137,7 @@ def unit_neighcell():
     h = """
 void vf_harness()
 {
-  NeighCell a; a._ndimA = nondet_int(); a._nMini = nondet_int();
+  NeighCell a; a._ndimA = nondet_int(); __CPROVER_assume(1 <= a._ndimA && a._ndimA <= 1048576); a._nMini = nondet_int();
   g_tape.n = 0; g_tape.rd = 0; g_type_mismatch = 0;
   std::ostream os; std::istream is;
   __CPROVER_assert(a._serialize(os, false), "writing succeeds");
@@ -499,7 +499,7 @@ static bool VF_write_str(const StringT& s) { return VF_put((double) s.tag, 3); }
 static bool VF_read_str(StringT& s) { double d; if (!VF_get(d, 3)) return false; s.tag = (int) d; return true; }
 bool __CPROVER_uninterpreted_hasparam(int);           /* does this covariance type have a third parameter (then scadef depends on it) */
 struct ECovV { int v; int getValue() const { return v; } };
-struct ECov { static int fromValue(int t) { return t; } };
+struct ECov { static int fromValue(int t) { return t; } static bool existsValue(int t) { return t >= 0 && t < 64; } };
 #define NVM 2
 class CovContext { public: int _nvar, _ndim; double _field; double _mean[NVM]; double _covar0[NVM][NVM];
   CovContext() : _nvar(0), _ndim(0), _field(0.) {}
@@ -558,7 +558,7 @@ void vf_harness()
   __CPROVER_assume(1 <= nd && nd <= NDMAX && 1 <= nv && nv <= NVMAX && 0 <= nc && nc <= NCMAX && 0 <= nb && nb <= NBMAX);
   a._ctxt._ndim = nd; a._ctxt._nvar = nv; a._ctxt._field = nondet_double(); a._covs.n = nc; a._drifts.n = nb;
   for (int i = 0; i < 2; i++) { a._ctxt._mean[i] = nondet_double(); a._drifts.tags[i] = nondet_int(); a._driftObj[i].tag = a._drifts.tags[i]; for (int j = 0; j < 2; j++) a._ctxt._covar0[i][j] = nondet_double(); }
-  for (int k = 0; k < 2; k++) { CovAniso& c = a._covs.a[k]; c._type = nondet_int(); c._ndim = nd; c._param = nondet_double(); c._paramSet = true; c._flagAniso = nondet_bool(); c._flagRot = c._flagAniso && nondet_bool();
+  for (int k = 0; k < 2; k++) { CovAniso& c = a._covs.a[k]; c._type = nondet_int(); __CPROVER_assume(ECov::existsValue(c._type)); c._ndim = nd; c._param = nondet_double(); c._paramSet = true; c._flagAniso = nondet_bool(); c._flagRot = c._flagAniso && nondet_bool();
     c._rangeIso = nondet_double(); c._ranges.n = nd; c._rot.n = nd * nd; for (int i = 0; i < VCAP; i++) { c._ranges.a[i] = nondet_double(); c._rot.a[i] = nondet_double(); }
     for (int i = 0; i < 2; i++) for (int j = 0; j < 2; j++) a._sill[k][i][j] = nondet_double(); }
   TAPE_RESET(); std::ostream os; std::istream is;
@@ -590,8 +590,102 @@ void vf_harness()
                          8 + ncmax * (6 + ndmax + ndmax * ndmax) + nbmax + nvmax + ncmax * nvmax * nvmax + nvmax * nvmax, max(ndmax * ndmax, 2), ndmax, nvmax, ncmax, nbmax))
 
 
+def zycor_null_value():
+    """static fact re-derived on every run: the number spelled by the token the writer puts for an undefined cell"""
+    import os, re
+    from tools.vf import REPO, Undecided
+    src = open(os.path.join(REPO, "src/OutputFormat/GridZycor.cpp"), encoding="utf-8", errors="replace").read()
+    m = re.search(r'#define ZYCOR_NULL_CH\s+"([^"]*)"', src)
+    if not m:
+        raise Undecided("ZYCOR_NULL_CH not found in GridZycor.cpp")
+    return repr(float(m.group(1)))
+
+
+def unit_zycor(NX=2):
+    """grid exchange format written and read by the library: Zycor.  Writer and reader (real text) chained on typed ghost tapes"""
+    from tools.vf import Fn, Unit
+    ZF = "src/OutputFormat/GridZycor.cpp"
+    pre = """
+typedef _Bool bool;
+#define true 1
+#define false 0
+#define NXM %d
+#define NCELL (NXM * NXM)
+#define TEST 1.234e30
+#define TEST_COMP 1.000e30
+#define FFFF(x) ((x) != (x) || (x) > TEST_COMP)
+#define SAMED(x, y) ((x) == (y) || ((x) != (x) && (y) != (y)))
+#define VF_NULL_TOKEN_VALUE %s        /* value spelled by ZYCOR_NULL_CH in the source of this run */
+#define messerr(...) ((void)0)
+/* typed tapes standing for the file */
+double TD[16 + NCELL]; int td_w, td_r; int TI[8]; int ti_w, ti_r; int ts_r; int g_tape_bad;
+static void VF_w_int(int v) { if (ti_w >= 8) { g_tape_bad = 1; return; } TI[ti_w] = v; ti_w = ti_w + 1; }
+static void VF_w_double(double v) { if (td_w >= 16 + NCELL) { g_tape_bad = 1; return; } TD[td_w] = v; td_w = td_w + 1; }
+static int VF_r_int(int* v) { if (ti_r >= ti_w) return 1; *v = TI[ti_r]; ti_r = ti_r + 1; return 0; }
+static int VF_r_double(double* v) { if (td_r >= td_w) return 1; *v = TD[td_r]; td_r = td_r + 1; return 0; }
+static int VF_r_str(char* s) { const char* seq[4] = { "@", "GRID", "", "@" }; if (ts_r >= 4) return 1; int k = 0; while (seq[ts_r][k]) { s[k] = seq[ts_r][k]; k++; } s[k] = 0; ts_r = ts_r + 1; return 0; }
+static int strcmp(const char* a, const char* b) { int k = 0; while (a[k] && a[k] == b[k]) k++; return (int) a[k] - (int) b[k]; }
+static int _fileWriteOpen(void) { return 0; } static int _fileReadOpen(void) { return 0; } static void _fileClose(void) {}
+static int VF_getNX(int i) { return W_nx[i]; } static double VF_getX0(int i) { return W_x0[i]; } static double VF_getDX(int i) { return W_dx[i]; }
+static double VF_getArray(int ii) { __CPROVER_assert(0 <= ii && ii < W_nx[0] * W_nx[1], "writer: cell rank inside the grid"); return W_val[ii]; }
+int R_nx[2]; double R_tab[NCELL]; int R_done;
+static void VF_reset(const int* nx, const double* tab) { R_nx[0] = nx[0]; R_nx[1] = nx[1]; for (int k = 0; k < NCELL; k++) R_tab[k] = tab[k]; R_done = 1; }
+""" % (NX, zycor_null_value())
+    w = Fn("GridZycor::writeInFile", ZF, r"^int GridZycor::writeInFile\(\)\s*$", csig="int GridZycor_writeInFile(void)",
+           rewrites=[(r'fprintf\(_file, "!\\n"\);', ";", 2), (r'fprintf\(_file, "!  File created by gstlearn package\\n"\);', ";", 1),
+                     (r'fprintf\(_file, "@GRID ZYCOR FILE    ,   GRID,  %d\\n", nbyline\);', "VF_w_int(nbyline);", 1),
+                     (r'fprintf\(_file, "     15, %13lg,    ,    0,     1\\n", testval\);', "VF_w_int(15); VF_w_double(testval); VF_w_int(0); VF_w_int(1);", 1),
+                     (r'(?s)fprintf\(_file, "%6d, %6d, %13lf, %13lf, %13lf, %13lf\\n", nx\[1\], nx\[0\], x0\[0\],\s*xf\[0\], x0\[1\], xf\[1\]\);',
+                      "VF_w_int(nx[1]); VF_w_int(nx[0]); VF_w_double(x0[0]); VF_w_double(xf[0]); VF_w_double(x0[1]); VF_w_double(xf[1]);", 1),
+                     (r'fprintf\(_file, " %15lf, %15lf, %15lf\\n", rbid, rbid, rbid\);', "VF_w_double(rbid); VF_w_double(rbid); VF_w_double(rbid);", 1),
+                     (r'fprintf\(_file, "@\\n"\);', ";", 1),
+                     (r"_dbgrid->getNX\(i\)", "VF_getNX(i)", 1), (r"_dbgrid->getX0\(i\)", "VF_getX0(i)", 1), (r"_dbgrid->getDX\(i\)", "VF_getDX(i)", 1),
+                     (r"_dbgrid->getArray\(ii, _cols\[0\]\)", "VF_getArray(ii)", 1),
+                     # one value of a line: its decimal spelling, or the fixed token of an undefined cell
+                     (r'gslSPrintf\(&card\[ind\], "%15g", buff\[yy\]\);', "VF_w_double(buff[yy]);", 2),
+                     (r"memcpy\(&card\[ind\], \(char\*\) ZYCOR_NULL_CH, 15\);", "VF_w_double(VF_NULL_TOKEN_VALUE);", 2),
+                     (r'gslSPrintf\(&card\[15 \* (nbyline|kk)\], "\\n"\);', ";", 2), (r'fprintf\(_file, "%s", card\);', ";", 2)])
+    r = Fn("GridZycor::readGridFromFile", ZF, r"^DbGrid\*\s+GridZycor::readGridFromFile\(\)\s*$", csig="int GridZycor_readGridFromFile(void)",
+           rewrites=[(r"DbGrid\* dbgrid = nullptr;", "int dbgrid = 0;", 1), (r"VectorInt nx\(2\);", "int nx[2];", 1), (r"VectorDouble dx\(2\);", "double dx[2];", 1), (r"VectorDouble x0\(2\);", "double x0[2];", 1),
+                     (r"_file_delimitors\([^;]*\);", ";", 2),
+                     (r'_record_read\(_file, "%s", string\)', "VF_r_str(string)", 4),
+                     (r'_record_read\(_file, "%d", &(\w+(\[\d\])?)\)', r"VF_r_int(&\1)", 6),
+                     (r'_record_read\(_file, "%l[gf]", &(\w+(\[\d\])?)\)', r"VF_r_double(&\1)", 9),
+                     (r"VectorDouble tab\(size\);", 'double tab[NCELL]; __CPROVER_assert(0 <= size && size <= NCELL, "reader: modelled grid capacity");', 1),
+                     (r"tab\[\(nx\[1\] - iy - 1\) \* nx\[0\] \+ ix\] = value;",
+                      '{ int vf_k = (nx[1] - iy - 1) * nx[0] + ix; __CPROVER_assert(0 <= vf_k && vf_k < size, "reader: cell rank inside the grid"); tab[vf_k] = value; }', 1),
+                     (r"dbgrid = new DbGrid\(\);", "dbgrid = 1;", 1), (r"dbgrid->reset\(nx,dx,x0,VectorDouble\(\),ELoadBy::SAMPLE,tab\);", "VF_reset(nx, tab);", 1)])
+    h = """
+void vf_harness(void)
+{
+  vf_havoc_inputs();
+  __CPROVER_assume(1 <= W_nx[0] && W_nx[0] <= NXM && 1 <= W_nx[1] && W_nx[1] <= NXM);
+  for (int k = 0; k < NCELL; k++) __CPROVER_assume(FFFF(W_val[k]) ? W_val[k] == TEST : (W_val[k] > -1.e20 && W_val[k] < 1.e20));   /* a cell is undefined (TEST) or an ordinary value */
+  td_w = 0; td_r = 0; ti_w = 0; ti_r = 0; ts_r = 0; g_tape_bad = 0; R_done = 0;
+  int rcw = GridZycor_writeInFile();
+  __CPROVER_assert(rcw == 0 && !g_tape_bad, "the writer succeeds");
+  int g = GridZycor_readGridFromFile();
+  __CPROVER_assert(g != 0 && R_done, "the reader accepts the file the writer produced");
+  __CPROVER_assert(R_nx[0] == W_nx[0] && R_nx[1] == W_nx[1], "same numbers of nodes");
+  for (int k = 0; k < NCELL; k++) if (k < W_nx[0] * W_nx[1])
+    __CPROVER_assert(SAMED(R_tab[k], W_val[k]), "every cell comes back with its value, an undefined cell comes back undefined");
+  VF_REACH();
+}
+"""
+    return Unit("C08.GridZycor.roundtrip", [w, r], prelude=pre, harness=h, pre_inputs="", unwind=NX * NX + 3, checks=["--bounds-check", "--pointer-check"],
+                backends=("minisat", "cadical"), timeout=900,
+                inputs=[("int", "W_nx", "2"), ("double", "W_x0", "2"), ("double", "W_dx", "2"), ("double", "W_val", str(NX * NX))],
+                bounded="grids up to %dx%d; unwind %d with unwinding assertions" % (NX, NX, NX * NX + 3),
+                claim=("GridZycor::writeInFile followed by GridZycor::readGridFromFile (real text of both, chained on typed ghost tapes standing for the file): the reader accepts "
+                       "what the writer produced, finds the same numbers of nodes, and every cell comes back with its value in its place — an undefined cell comes back undefined "
+                       "(the null value announced in the header is the number spelled by the token written for undefined cells, %s, re-read from the source on this run)" % zycor_null_value()),
+                assumptions=["decimal formatting / parsing of a number is the identity (text layer not modelled); mesh and origin (written with 6 decimals) not compared",
+                             "record reader = typed tapes: ints, doubles and the four keyword strings in the order of the calls"],
+                canaries=[{"fn": "GridZycor::readGridFromFile", "rx": r"if \(value == test\) value = TEST;", "rp": ";", "expect": r"assertion"}])
+
+
 def units(tier):
-    return ([unit_model("one_structure", 2, 2, 1, 1), unit_model("rotation", 2, 1, 1, 0)] if tier != "quick" else []) + [unit_model("two_structures", 1, 1, 2, 2), unit_dbgrid(), unit_dbline(), unit_fracenviron(), unit_neighmoving(), unit_neighbench(), unit_neighimage(), unit_neighcell(), unit_polygons(), unit_faults(), unit_table(), unit_anamhermite()]
+    return ([unit_model("one_structure", 2, 2, 1, 1), unit_model("rotation", 2, 1, 1, 0)] if tier != "quick" else []) + [unit_model("two_structures", 1, 1, 2, 2), unit_dbgrid(), unit_dbline(), unit_fracenviron(), unit_neighmoving(), unit_neighbench(), unit_neighimage(), unit_neighcell(), unit_polygons(), unit_faults(), unit_table(), unit_anamhermite(), unit_zycor(2 if tier == 'quick' else 3)]
 
 
 META = {
@@ -601,15 +695,15 @@ META = {
     "trusted_base": ["CBMC 6.11 C++ front end", "stub class declarations mirroring the headers (members, trivial accessors)", "ghost tape of typed records (stubs/tape_stub.hpp)",
                      "contract stubs: BiTargetCheckDistance/Bench, CovAniso (typestate: parameter before ranges), gridDefine, Db table part as a sentinel record"],
     "assumptions": [],
-    "not_covered": ["Db / DbGraphO / DbMesh table parts, Vario (lossy format: calculation type, bench, cylinder radius, breaks, dates not written; undefined lags written as 0), "
-                    "meshes, rules, discrete / empirical anamorphoses", "text formatting (15 digits, NA token, comments, line structure)", "grid exchange formats",
+    "not_covered": ["Db / DbGraphO / DbMesh table parts, Vario (bench, cylinder radius, breaks, dates not written; undefined lags written as 0; calculation type stored since fix f32775000, demonstration only), "
+                    "meshes, rules, discrete / empirical anamorphoses", "text formatting (15 digits, NA token, comments, line structure)", "grid exchange formats other than Zycor",
                     "anisotropic ranges of a Model (coefficient x range in floating point)",
                     "re-writing the reloaded object gives the same file (follows from equality of the defining members for the covered classes only)"],
 }
 MANIFEST = {
     "category": "other",
     "text": ("Partial, bounded: _serialize/_deserialize pairing on a ghost tape of typed records for NeighMoving/Bench/Image/Cell, Polygons, Faults, Table, AnamHermite, "
-             "FracEnviron, DbGrid header, DbLine organisation and Model (all option combinations, small sizes): same record sequence both ways, every defining member restored."),
+             "FracEnviron, DbGrid header, DbLine organisation and Model (all option combinations, small sizes): same record sequence both ways, every defining member restored; Zycor grid exchange format: writer and reader chained, values and undefined cells restored (bounded)."),
     "note": "Text formatting and the other classes N/A; sizes bounded (stated per unit).",
     "design_ref": "DESIGN.md 3 C08",
 }
